@@ -3987,6 +3987,10 @@ class State:
             0,
         )
         board_index = self.board_dealing_counts.index(self.board_dealing_count)
+
+        if not self.street.board_dealing_count:
+            index = len(self.board_cards) - bool(board_index)
+
         self.board_dealing_counts[board_index] -= len(cards)
 
         for card in cards:
